@@ -8,7 +8,9 @@ package server
 
 import (
 	"errors"
+	iofs "io/fs"
 	"net"
+	"time"
 	"os"
 	osuser "os/user"
 
@@ -30,8 +32,8 @@ var c09eHomes = map[string]string{"alice": "/home/alice", "dserver": "/home/dser
 
 func c09eGetwd() (string, error) { return "/srv/dtail", nil }
 func c09eStat(name string) (os.FileInfo, error) {
-	if _, ok := c09eFiles[name]; ok {
-		return nil, nil
+	if c, ok := c09eFiles[name]; ok {
+		return c09eInfo{int64(len(c))}, nil
 	}
 	return nil, errors.New("stat " + name + ": no such file or directory")
 }
@@ -47,6 +49,15 @@ func c09eLookup(name string) (*osuser.User, error) {
 	}
 	return nil, errors.New("user: unknown user " + name)
 }
+
+type c09eInfo struct{ size int64 }
+
+func (i c09eInfo) Name() string        { return "authorized_keys" }
+func (i c09eInfo) Size() int64         { return i.size }
+func (i c09eInfo) Mode() iofs.FileMode { return 0o600 }
+func (i c09eInfo) ModTime() time.Time  { return time.Time{} }
+func (i c09eInfo) IsDir() bool         { return false }
+func (i c09eInfo) Sys() interface{}    { return nil }
 
 type c09eMeta struct{ user string }
 
